@@ -877,6 +877,19 @@ def run(ctx):
             rb, rt = rx[0]
             gs = paths.guards(qp, rb, eb)
             on_err = any(g[0] == "err" and "AllQuestion" in show(g[1]) for g in gs)
+            # ... on *every* error of the fast matcher: whatever it cannot express is matched as
+            # wildcards, so no test on the kind of error may stand between (seed C04j: only three
+            # error kinds fell back, valid questions failed the load)
+            further = [g for g in gs if not (g[0] == "err" and "AllQuestion" in show(g[1]))]
+            if further:
+                on_err = False
+            # (a test of the error's kind whose arms share a block leaves no dominating guard: as a
+            # path rule - from the Err edge no return is reachable around the regex parse)
+            rets_ = [bb_ for bb_ in range(len(qp.blocks)) if not qp.is_cleanup(bb_) and qp.term(bb_).get("k") == "return"]
+            for sb_, g_, tg_ in paths.switch_outcomes(qp, eb):
+                if g_[0] == "err" and "AllQuestion" in show(g_[1]) and sb_ in qp.dominators().get(rb, ()):
+                    if any(qp.can_reach(tg_, r_, avoid={rb}) for r_ in rets_):
+                        on_err = False
             unguarded_fast = not paths.guards(qp, fb, eb)
             okk = on_err and unguarded_fast and show(eb.at(fb).op(ft["args"][0])) == "patterns" and show(eb.at(rb).op(rt["args"][0])) == "patterns"
         variants = {}
